@@ -6,6 +6,10 @@ checks = {
  "C01": dict(cat="fault_enumeration", tech="adversarial-execution monitor: real Groth16 Setup/Prove/Verify against enumerated proof edits, replayed inputs, surplus-commitment forgery, dishonest prover via PostSolve hook, byte flips",
    text="Every single-element edit of genuine proofs is enumerated and the real verifier's answer observed, on generated circuits with 0..3 commitments over 3 (quick) / 7 (thorough) curves; plus replay, commitment-list, dishonest-prover and byte-level families. Says: none of the implemented adversaries is accepted on the executions observed; nothing about adversaries not implemented.",
    note="trusted: big.Int reference evaluator (ceval), gnark-crypto group arithmetic used to build edits, the PostSolve hook; soundness error 2^-250 treated as never", ref="§3 C01"),
+
+ "C02": dict(cat="fault_enumeration", tech="adversarial-execution monitor (enumerated proof edits, replay, option mismatch, dishonest prover via PostSolve hook editing L,R,O, byte flips) + reference-model key audit after Setup",
+   text="Every single-leaf edit of genuine PLONK proofs is enumerated against the real verifier on generated sparse systems with 0..2 BSB22 commitments over 3/7 curves; the dishonest prover violates exactly a gate, only a copy constraint, or a public row (classified independently by ceval); the key audit recomputes selector columns, the wiring permutation's cycle structure and all vk commitments from the exported gates. Says what the observed executions did, nothing about unimplemented adversaries.",
+   note="trusted: ceval, gnark-crypto kzg.Commit/fft used by the audit, unsafekzg SRS; soundness error 2^-250 treated as never", ref="§3 C02"),
 }
 pending = {}
 for i in range(1,21):
